@@ -176,21 +176,28 @@ fn deviations(toks: &[Tok]) -> Vec<Dev> {
             (K::Word, "GOTO") => {
                 d.push(Dev { at: i, gap: None, text: Some("GO TO".into()), listed: None, name: "go-to" });
                 d.push(Dev { at: i, gap: None, text: Some("go  to".into()), listed: None, name: "go-to" });
+                d.push(Dev { at: i, gap: None, text: Some("GO \tTO".into()), listed: None, name: "go-to" });
             }
-            (K::Word, "GOSUB") => d.push(Dev { at: i, gap: None, text: Some("GO SUB".into()), listed: None, name: "go-sub" }),
+            (K::Word, "GOSUB") => {
+                d.push(Dev { at: i, gap: None, text: Some("GO SUB".into()), listed: None, name: "go-sub" });
+                d.push(Dev { at: i, gap: None, text: Some("GO\t SUB".into()), listed: None, name: "go-sub" });
+            }
             (K::Op, "<=") => {
                 d.push(Dev { at: i, gap: None, text: Some("=<".into()), listed: None, name: "equal-less" });
                 d.push(Dev { at: i, gap: None, text: Some("< =".into()), listed: None, name: "blank-inside-operator" });
                 d.push(Dev { at: i, gap: None, text: Some("= <".into()), listed: None, name: "blank-inside-operator" });
+                d.push(Dev { at: i, gap: None, text: Some("<\t =".into()), listed: None, name: "blank-inside-operator" });
             }
             (K::Op, ">=") => {
                 d.push(Dev { at: i, gap: None, text: Some("=>".into()), listed: None, name: "equal-greater" });
                 d.push(Dev { at: i, gap: None, text: Some("> =".into()), listed: None, name: "blank-inside-operator" });
                 d.push(Dev { at: i, gap: None, text: Some("= >".into()), listed: None, name: "blank-inside-operator" });
+                d.push(Dev { at: i, gap: None, text: Some("> \t=".into()), listed: None, name: "blank-inside-operator" });
             }
             (K::Op, "<>") => {
                 d.push(Dev { at: i, gap: None, text: Some("< >".into()), listed: None, name: "blank-inside-operator" });
                 d.push(Dev { at: i, gap: None, text: Some("<  >".into()), listed: None, name: "blank-inside-operator" });
+                d.push(Dev { at: i, gap: None, text: Some("< \t>".into()), listed: None, name: "blank-inside-operator" });
             }
             _ => {}
         }
@@ -298,7 +305,7 @@ fn squeeze(listed: &str) -> String {
             } else if c == '\'' || (c == 'R' && cs[i..].starts_with(&['R', 'E', 'M'])) {
                 out.extend(cs[i..].iter());
                 break;
-            } else if c != ' ' {
+            } else if c != ' ' && c != '\t' {
                 out.push(c);
             }
             i += 1;
@@ -674,7 +681,7 @@ impl Check for C16 {
     fn meta(&self, tier: Tier) -> Meta {
         Meta {
             bound: match tier {
-                Tier::Quick => "35 lines covering every statement kind and literal form, and every last line of the programs with N=1 (full alphabet) and N=2 (medium): all single and all pairs of spelling deviations (per token: lower / alternating case; per gap: 0, 1, 2 blanks where optional; aliases ?, ', GO TO, GO SUB, LET, =<, =>, blanks inside <=, >=, <>; lower-case exponent and radix letters) compared by listing; every single deviation of every line of N=1 full and N=2 medium programs also compared by running".into(),
+                Tier::Quick => "35 lines covering every statement kind and literal form, and every last line of the programs with N=1 (full alphabet) and N=2 (medium): all single and all pairs of spelling deviations (per token: lower / alternating case; per gap: 0, 1, 2 blanks where optional; aliases ?, ', GO TO, GO SUB, LET, =<, =>, blanks (also a blank and a tab mixed) inside <=, >=, <>, GO TO, GO SUB; lower-case exponent and radix letters) compared by listing; every single deviation of every line of N=1 full and N=2 medium programs also compared by running".into(),
                 Tier::Thorough => "as quick, with listing pairs up to N=2 full / N=3 medium, run comparison with pairs at N=1, singles at N=2 full and N=3 core".into(),
             },
             rule: "a case is (line, deviation set); distinct_nontrivial = distinct (deviation name, expected listing or baseline transcript)".into(),
